@@ -201,6 +201,60 @@ marked SRCC, which wrap the methods above and leave them untouched for every oth
   (IndexError), which REBINDS l (assigned_names counts item assignment); `''.join(l)` on it = py_join_opt (TypeError on None).
 Trusted additionally for SRCC: the tables SRCC_UNITS SRCC_SOCKET SRCC_SOCKET_MODULES SRCC_SHARED_CONSTS SRCC_TABLE_TERM, the
 declared parameter types, Model/SrcPreludeText.v, and the reading of compat._str_type / _is_str / _bytes_join / _range above.
+SRCF (class FnF, units SRCF_UNITS: second units over netaddr/strategy/eui48.py, eui64.py -> pysrc_eui48b_gen.v, pysrc_eui64b_gen.v, and
+over netaddr/eui/__init__.py -> pysrc_euib_gen.v; symbols in Model/SrcPreludeEui2.v; a unit names its own subclass of Fn in FN_CLASS,
+which sees a construct first and hands everything it does not recognise to Fn):
+* a dialect parameter declared `optedialect` is None or the record (word_size, num_words, word_sep, word_fmt) of a dialect class
+  (dialect_t = Model/Eui.v dialect; attributes d_word_size ..); `if dialect is None: dialect = NAME` binds the regenerated record
+  constant src_<m>_<NAME>_rec of the class NAME stands for (ints as for DEFAULT_DIALECT, the two strings literal, through the
+  bases); `if x is None: x = e` for an `optstr` parameter likewise.  A record handed to a callee translated with the pair is d_pair.
+* calls of translated functions may use keyword arguments and omit trailing parameters (the callee's literal default is passed).
+* the module's own `width` / `version` / `max_int` are the constants src_<m>_width .. of Gen/pysrc_eui_gen.v.
+* `_struct.pack('>..', a, b)`, `_struct.pack('>kB', *l)`, `_struct.unpack('>kB', b)` (with `import struct as _struct`) =
+  py_struct_pack / py_struct_unpack <byte widths read from the literal> (Model/Codec.v struct_pack / struct_unpack, StructError);
+  a bytes object is the list of its byte values; list(<list>) is that list.
+* an EUI method: `self._module.f(args)` = `if ver =? src_eui48_version then src_eui48_f args else if ver =? src_eui64_version then
+  src_eui64_f args else Raise Unsupported` (the two modules the file imports as _eui48 / _eui64; any other _module is outside the
+  class invariant); the pseudo-parameter "self._dialect" of a unit entry makes the receiver's _dialect a leading parameter;
+  `self._value = <call>` as the last state assignment returns the new value; `l[i]` with a computed index = py_getitem_o (IndexError),
+  `l[i] = e` = py_setitem_o on an unaliased list, `l[a:b]` for literals 0 <= a <= b = py_slice_lit; `text % n` = py_fmt_int (Model/Eui.v
+  apply_fmt), `text % tuple(l)` = py_fmt_ints; `sep.join(l)` = join; `[e for x in xs]` = map, or py_map_o when e can raise;
+  `int(s, 16)` / `int(s, 10)` = py_int_o; (a, b) <op> (c, d) on tuples of ints = componentwise equality / lexicographic order;
+  hash((a, b)) = py_hash_pair (the pair itself); `_is_int(x)`, `isinstance(x, slice)`, `isinstance(x, EUI)` are decided by the
+  declared type of x (int / str / eui).
+* parsers: the module-level lists of compiled regular expressions RE_MAC_FORMATS / RE_EUI64_FORMATS are the hand-compiled matchers
+  mac_pats / eui64_pats of Model/Eui.v (SRCF_TABLES; pinned to the regenerated pattern strings by Proofs/GenOk_C08.v);
+  `regexp.findall(text)` = py_findall = match_pat (None = [], Some groups = [groups]; TypeError for an int argument), len() / truth /
+  [0] of that result = py_matches_len / py_found / py_match0; the groups of a match are a list of text -- a tuple, or for a
+  one-group pattern that group's text itself: isinstance(g, tuple) = py_is_tuple, (g,) = [py_group_str g]; a function that returns
+  from inside a loop and None at its end has an optional result (`if x:` / `if not x:` on it narrows x in the true branch);
+  `try: <findall on text, len, comparisons> / except TypeError: pass` is its body (dead handler); a unit entry `f:int` is the
+  specialisation of f to an int first argument, chosen at a call by the type of the argument; a function all of whose paths raise
+  has result type int.
+* full-state methods (unit entry with the pseudo-parameter "self.*": EUI.__init__, _set_value, __setstate__): the attributes
+  _module / _value / _dialect are tracked at translation time (env["self._module"] = none | module (version term, eui48 | eui64 | unknown)),
+  every `if` on them duplicates the continuation, `self._module is None` is decided statically, `for module in (_eui48, _eui64)` is
+  unrolled (break = the statements after the loop), `try: body / except E: pass` = every call of the body that raises E continues after
+  the try (IR trybind; no call may follow a state assignment in the body), `try: self._value = call / except E1: raise E2` = py_except,
+  `self.value = x` = the _set_value specialisation for the module known there (`_set_value:implicit_<type>` / `:eui48_<type>` /
+  `:eui64_<type>`), `self.dialect = d` = _set_dialect, super(C, self).__init__() = the base class's constant attribute assignments,
+  `if x is not None [and ..]` on an `optint` parameter = match; the method answers the final state ((version, value) for _set_value,
+  the eui record for __init__ / __setstate__); a parameter declared "tup:t1,t2,.." is a tuple; a @classmethod listed in
+  SRCF_CLASSMETHODS whose `cls` is only read as cls.<constant> is a method of a stateless receiver with cls = its class.
+* netaddr/eui/ieee.py -> pysrc_ieee_gen.v (symbols in Model/SrcPreludeIeee.v): pseudo-parameter "self.fh" = the binary file the parser
+  reads as two leading parameters self_fh_lines / self_fh_tell (`x = self.fh.readline()` = py_readline, self.fh.tell() = the position);
+  self.notify(r) appends r to the list the method returns; every text value is a bytes object: `a in b` = py_bytes_in,
+  b.split()[0] = py_bytes_split0, b.split(sep)[0] = py_bytes_split_sep0, int(b, 16) = py_int16_bytes (Model/Ieee.v int16), truth =
+  py_bytes_truthy, a + b = String.append, _bytes_type('lit') = the literal; a local declared `optintlist` / `optbilist` in the unit
+  entry is None or a list of ints / of bytes-or-int values (bi: BiB | BiI; elements are injected by their static type): `x is not None`
+  and x.append(e) narrow x to the list (AttributeError on None), x[k] / x[k] = e raise TypeError on None, v.replace(..) on a bi value
+  raises AttributeError for an int; `while True` runs on FUEL = len(self_fh_lines) + 1.
+* the classes OUI / IAB of netaddr/eui/__init__.py -> pysrc_euic_gen.v: a unit entry key "dict:<name>" declares a dict with constant
+  string keys held in a local or in self.<attr>: it is one variable per key (d['k'] = d__k; a dict literal = the assignments of its
+  keys; an attribute dict = leading parameters and the result); `self.<list>.append(d)` as the last statement = the method answers d;
+  a for loop whose body rebinds its loop variable gets a fresh one; str(self) = the translated __str__; text % (a, b, ..) = py_fmt_ints;
+  s.split("\n") = py_str_split_nl, s.strip() = py_str_strip, s.split(None, 2)[2] = py_str_field3 (Model/Ieee.v split_nl / strip /
+  third_field), `a in b` and truth of text as for bytes.
 """
 import ast
 import os
@@ -473,6 +527,89 @@ RESERVED |= set("py_struct_pack py_struct_unpack py_seq_item py_list_item py_opt
                 "py_insert0 py_except_all py_except_value join split fmt_d fmt_x chars length concat firstn skipn nth_error "
                 "py_BYTES_TO_BITS py_backend be py_inet_aton py_inet_pton4 py_inet_pton6 py_inet_ntop6 py_format1 py_split_dc py_contains_dc "
                 "contains_char py_sort_asc py_sort_optkey py_ins_asc py_range py_list_set py_join_opt".split())
+# ---- SRCF: the remaining functions of netaddr/strategy/eui48.py, eui64.py and of class EUI (second units over those files; the
+# constructs they need are in class FnF below, named here through FN_CLASS).  Parameter types: `optedialect` = None or a dialect
+# class seen as the record (word_size, num_words, word_sep, word_fmt) (Model/SrcPreludeEui2.v dialect_t), `edialect` = such a record,
+# `optstr` = None or text, `list int` for a bytes object (its byte values), `eui` = an EUI object, `darg` = the argument of
+# _validate_dialect (Model/Eui.v darg: None | a class with word_size and word_fmt | any other object).  The pseudo-parameter
+# "self._dialect" makes the receiver's _dialect attribute a leading parameter of the method.
+SRCF_REQ = " Base.PyStr Model.SrcPreludeStr Model.Eui Model.SrcPreludeEui Model.SrcPreludeEui2 Gen.pysrc_eui_gen"
+SRCF_STRATEGY_FUNCS = [
+    (None, "int_to_packed", {"int_val": "int"}), (None, "packed_to_int", {"packed_int": "list int"}),
+    (None, "valid_bits", {"bits": "str", "dialect": "optedialect"}), (None, "bits_to_int", {"bits": "str", "dialect": "optedialect"}),
+    (None, "int_to_bits", {"int_val": "int", "dialect": "optedialect", "word_sep": "optstr"}),
+    (None, "valid_bin", {"bin_val": "str", "dialect": "optedialect"}), (None, "int_to_bin", {"int_val": "int"}),
+    (None, "bin_to_int", {"bin_val": "str"}), (None, "int_to_str", {"int_val": "int", "dialect": "optedialect"})]
+SRCF_STRATEGY_FUNCS48 = [(None, "valid_str", {"addr": "str"}), (None, "str_to_int", {"addr": "str"}), (None, "str_to_int:int", {"addr": "int"})]
+SRCF_STRATEGY_FUNCS64 = [(None, "_get_match_result", {"address": "str", "formats": "list pat"}),
+                         (None, "valid_str", {"addr": "str"}), (None, "str_to_int", {"addr": "str"}),
+                         (None, "_get_match_result:int", {"address": "int", "formats": "list pat"}), (None, "str_to_int:int", {"addr": "int"})]
+# the compiled regular expressions: module-level list -> the hand-compiled matchers of Model/Eui.v (Proofs/GenOk_C08.v proves that
+# the regenerated pattern strings of the source are the renderings of exactly these matchers, in order, flags IGNORECASE|UNICODE)
+SRCF_TABLES = {"eui48_": {"RE_MAC_FORMATS": "mac_pats"}, "eui64_": {"RE_EUI64_FORMATS": "eui64_pats"}}
+SRCF_UNITS = [
+    ("netaddr/strategy/eui48.py", "pysrc_eui48b_gen.v", "eui48_", SRCF_REQ, SRCF_STRATEGY_FUNCS + SRCF_STRATEGY_FUNCS48),
+    ("netaddr/strategy/eui64.py", "pysrc_eui64b_gen.v", "eui64_", SRCF_REQ, SRCF_STRATEGY_FUNCS + SRCF_STRATEGY_FUNCS64),
+    ("netaddr/eui/__init__.py", "pysrc_euib_gen.v", "", SRCF_REQ + " Gen.pysrc_eui48b_gen Gen.pysrc_eui64b_gen", [
+        ("EUI", "words", {}), ("EUI", "packed", {}), ("EUI", "bin", {}), ("EUI", "bits", {"word_sep": "optstr"}),
+        ("EUI", "ei", {}), ("EUI", "iab", {}),
+        ("EUI", "__getitem__:int", {"idx": "int", "self._dialect": "edialect"}),
+        ("EUI", "__setitem__", {"idx": "int", "value": "int", "self._dialect": "edialect"}),
+        ("EUI", "__hash__", {})] + [("EUI", m, {"other": "eui"}) for m in ("__eq__", "__ne__", "__lt__", "__le__", "__gt__", "__ge__")] + [
+        ("EUI", "_validate_dialect", {"value": "darg"}), ("EUI", "_set_dialect", {"value": "darg"}),
+        ("EUI", "dialect", {"self._dialect": "edialect"}), ("EUI", "format", {"dialect": "darg"}),
+        ("EUI", "__str__", {"self._dialect": "edialect"}), ("EUI", "__getstate__", {"self._dialect": "edialect"}),
+    ] + [("EUI", "_set_value:%s_%s" % (m, t), {"value": t, "self.*": "state"}) for m in ("implicit", "eui48", "eui64") for t in ("str", "int")] + [
+        ("EUI", "__init__:%s" % t, {"addr": t, "version": "optint", "dialect": "darg", "self.*": "state"}) for t in ("int", "str", "eui")] + [
+        ("EUI", "__setstate__", {"state": "tup:int,int,darg", "self.*": "state"}), ("IAB", "split_iab_mac", {"strict": "bool"}),
+        ("EUI", "__index__", {}), ("EUI", "__long__", {}),
+    ]),
+]
+# netaddr/eui/ieee.py (property C19): the two index parsers.  The pseudo-parameter "self.fh" makes the file object the parser reads
+# two leading parameters (its remaining lines, the position tell() answers) and the rows handed to self.notify() the result;
+# a name declared with a type here that is not a parameter is a local variable of that type (`optintlist` = None or a list of ints).
+SRCF_UNITS.append(("netaddr/eui/ieee.py", "pysrc_ieee_gen.v", "", " Base.PyStr Model.SrcPreludeStr Model.Ieee Model.SrcPreludeIeee", [
+    ("OUIIndexParser", "parse", {"self.fh": "file", "record": "optintlist"}),
+    ("IABIndexParser", "parse", {"self.fh": "file", "record": "optbilist"})]))
+# the record classes OUI / IAB of netaddr/eui/__init__.py (property C19): a unit of its own (it needs Model/Ieee.v, not Model/Eui.v).
+# "dict:<name>" declares a dict with constant string keys, held in the local / attribute <name>: it is translated as one variable
+# per key (<name>__<key>); `self.records.append(r)` as the last statement = the method answers r; a method of IAB that assigns
+# self.record[..] answers the new record.
+SRCF_UNITS.append(("netaddr/eui/__init__.py", "pysrc_euic_gen.v", "",
+                   " Base.PyStr Model.SrcPreludeStr Model.SrcPreludeEui2 Model.Ieee Model.SrcPreludeIeee", [
+    ("OUI", "__str__", {}), ("IAB", "__str__", {}),
+    ("OUI", "_parse_data", {"data": "str", "offset": "int", "size": "int", "dict:record": "idx,oui,org,address,offset,size"}),
+    ("IAB", "_parse_data", {"data": "str", "offset": "int", "size": "int",
+                            "dict:self.record": "idx:int,iab:str,org:str,address:list str,offset:int,size:int"})]))
+STATE["OUI"] = ("v",)
+STATE["OUIIndexParser"] = STATE["IABIndexParser"] = ()
+UNIT_PREAMBLE["pysrc_euic_gen.v"] = ("(* Model/Ieee.v leaves string_scope open: `++` below is list concatenation *)\n"
+                                      "Open Scope list_scope.\nOpen Scope Z_scope.\n")
+UNIT_PREAMBLE["pysrc_ieee_gen.v"] = ("(* Model/Ieee.v leaves string_scope open: `++` below is list concatenation *)\n"
+                                      "Open Scope list_scope.\nOpen Scope Z_scope.\n")
+FUEL[("OUIIndexParser", "parse", 1)] = ("len(self_fh_lines)", 1)       # one line per iteration, one more to see the end of the file
+FUEL[("IABIndexParser", "parse", 1)] = ("len(self_fh_lines)", 1)
+UNITS += SRCF_UNITS
+FILES = FILES + tuple(u[1] for u in SRCF_UNITS)
+STATE["IAB"] = ("v",)
+COQTY.update({"edialect": "dialect_t", "optedialect": "(option dialect_t)", "optstr": "(option string)", "darg": "darg"})
+SRCF_VALUE_TYPES = ("edialect", "optedialect", "optstr", "darg", "pat", "matches", "optgroups", "optintlist", "bi", "optbilist")
+COQTY.update({"optintlist": "(option (list Z))", "bi": "bi", "optbilist": "(option (list bi))"})
+COQTY.update({"pat": "pat", "matches": "(option (list string))", "optgroups": "(option (list string))"})
+# netaddr.strategy.int_to_bits is not translated (nested while inside for): the call is its hand model (SrcPreludeEui2.py_int_to_bits)
+EXTERN["netaddr.strategy.int_to_bits"] = ("py_int_to_bits", ("int", "int", "int", "str"), "str")
+# names the generated text of these units uses as symbols: a Python local of that name gets a trailing underscore
+SRCF_RESERVED = set("dialect_t mk_dialect d_word_size d_num_words d_word_sep d_word_fmt d_pair py_struct_pack py_struct_unpack "
+                    "py_int_to_bits py_getitem_o py_setitem_o py_slice_lit py_fmt_int py_fmt_ints py_map_o py_hash_pair join map "
+                    "dialect darg DNone DRec DBad word_size num_words word_sep word_fmt pat mac_pats eui64_pats py_findall "
+                    "py_matches_len py_found py_match0 py_is_tuple py_group_str py_optgroups_truthy py_readline py_bytes_in "
+                    "py_bytes_split0 py_bytes_split_sep0 py_int16_bytes py_bytes_truthy bi BiB BiI bi_bytes blen contains "
+                    "py_str_split_nl py_str_strip py_str_field3 strip".split())
+BY_FILE = {}        # (SRCF) source file -> all translators made for it, in unit order (filled by generate())
+FN_CLASS = {}       # (SRCF) output file -> the subclass of Fn that translates that unit's functions
+PURE_METHODS = PURE_METHODS + ("findall",)         # <compiled pattern>.findall(text) does not change the pattern object
+MODULE_HOOK = {}    # (SRCF) output file -> function applied to the parsed Module of that unit before anything is translated
+SRCF_STRUCT_SIZES = {"B": 1, "H": 2, "I": 4}       # struct format characters (big-endian, standard sizes) -> bytes per field
 
 
 class Untranslatable(Exception):
@@ -537,6 +674,8 @@ def assigned_names(stmts):
                 found.append((n.lineno, n.col_offset, n.id))
             elif isinstance(n, ast.Attribute) and isinstance(n.ctx, ast.Store) and isinstance(n.value, ast.Name):
                 found.append((n.lineno, n.col_offset, n.value.id))             # x._prefixlen = e rebinds the local object x
+            elif isinstance(n, ast.Subscript) and isinstance(n.ctx, ast.Store) and isinstance(n.value, ast.Name):
+                found.append((n.lineno, n.col_offset, n.value.id))             # (SRCF) x[k] = e rebinds the local list x
             elif (isinstance(n, ast.Call) and isinstance(n.func, ast.Attribute) and isinstance(n.func.value, ast.Name)
                   and n.func.attr not in PURE_METHODS):
                 found.append((n.lineno, n.col_offset, n.func.value.id))        # any other method call on a name may mutate it
@@ -858,6 +997,7 @@ class Fn:
             env[x.arg] = (ty, cn)
             env["@taint"] |= {x.arg}
             self.params.append((cn, ty))
+        self.unit_init(env)                 # (SRCF) hook for a unit's own class of Fn: extra attributes / state parameters
         body = self.f.body
         if body and isinstance(body[0], ast.Expr) and isinstance(body[0].value, ast.Constant) and isinstance(body[0].value.value, str):
             body = body[1:]
@@ -870,6 +1010,9 @@ class Fn:
 
     def initial_env(self, env):
         return env
+
+    def unit_init(self, env):
+        """(SRCF) hook called before the body is translated; the class a unit names in FN_CLASS may add attributes / parameters"""
 
     # ---- object state read and written like locals (STATEVARS)
     def method_mutates(self, name, seen=()):
@@ -2773,7 +2916,1196 @@ class FnE(Fn):
         return super().isinstance_(s, t, neg, rest, env, k, after)
 
 
-FN_CLASS = {u[1]: FnE for u in SRCE_UNITS}
+FN_CLASS.update({u[1]: FnE for u in SRCE_UNITS})
+# ---- SRCF: constructs of the EUI units (see the docstring paragraph "SRCF") -------------------------------------------
+_is_value_before_SRCF = is_value
+
+
+def is_value(t):
+    return _is_value_before_SRCF(t) or t in SRCF_VALUE_TYPES
+
+
+class FnF(Fn):
+    """Fn with the constructs of the units listed in SRCF_UNITS; everything it does not recognise goes to Fn unchanged."""
+    OPT = {"optstr": "str", "optedialect": "edialect"}
+
+    def __init__(self, tr, recv, name, ptypes):
+        self.spec_types = dict(ptypes)
+        Fn.__init__(self, tr, recv, name, ptypes)
+
+    def coqname(self, node, name):
+        if name in SRCF_RESERVED:
+            if self.used.setdefault(name + "_", name) != name:
+                bad(node, "identifier clash on %s_" % name)
+            return name + "_"
+        return Fn.coqname(self, node, name)
+
+    def unit_init(self, env):
+        self.dialect_param = False
+        self.init_fullstate(env)
+        self.local_types = {x: t for x, t in getattr(self, "spec_types", {}).items() if t in self.OPTLIST}
+        if "self.fh" in self.ptypes_declared:
+            self.init_file_state(env)
+        if any(x.startswith("dict:") for x in self.ptypes_declared):
+            self.init_dicts(env)
+        self.no_state_text = (self.recv, self.pyname) in SRCF_CLASSMETHODS
+        for i, (cn, ty) in enumerate(self.params):              # a parameter declared "tup:<t1>,<t2>,..": a tuple of those types
+            if isinstance(ty, str) and ty.startswith("tup:"):
+                ty = ("tup", tuple(ty[4:].split(",")))
+                self.params[i] = (cn, ty)
+                for key, val in env.items():
+                    if not key.startswith("@") and val[1] == cn:
+                        env[key] = (ty, cn)
+        if self.recv is None and self.tr.prefix in ("eui48_", "eui64_"):
+            # the module's own constants width / version / max_int: the regenerated constants of Gen/pysrc_eui_gen.v
+            for c in ("width", "version", "max_int"):
+                if c not in env:
+                    self.attrs[c] = ("int", "src_%s%s" % (self.tr.prefix, c))
+        if self.recv is not None:
+            # the constants of the two strategy modules, through the aliases the file imports them under (Gen/pysrc_eui_gen.v)
+            for m in ("eui48", "eui64"):
+                if self.mod.imports.get("_" + m) == "netaddr.strategy." + m:
+                    for c in ("width", "version", "max_int"):
+                        self.attrs["_%s.%s" % (m, c)] = ("int", "src_%s_%s" % (m, c))
+        last = self.f.body[-1] if self.f.body else None
+        if (self.recv == "EUI" and isinstance(last, ast.Assign) and len(last.targets) == 1 and dotted(last.targets[0]) == "self._dialect"
+                and sum(1 for n in ast.walk(self.f) if isinstance(n, ast.Attribute) and not isinstance(n.ctx, ast.Load)) == 1
+                and not any(isinstance(n, ast.Return) for n in ast.walk(self.f))):
+            # a method whose only state assignment is its last statement `self._dialect = e` answers the new dialect
+            import copy
+            self.f = copy.copy(self.f)
+            self.f.body = self.f.body[:-1] + [ast.copy_location(ast.Return(value=last.value), last)]
+        if self.recv == "EUI" and "self._dialect" in self.ptypes_declared:
+            cn = self.coqname(self.f, "self_dialect")
+            self.params.insert(0, (cn, "edialect"))
+            self.attrs["self._dialect"] = ("edialect", cn)
+            self.dialect_param = True
+
+    # ---- calls of translated definitions: keyword / default arguments, a dialect record for a callee that takes the pair
+    def coerce(self, node, ty, t, pty):
+        if ty == "none" and isinstance(pty, str) and pty.startswith("opt"):
+            return (pty, "None")
+        if pty == "darg" and ty in ("none", "edialect"):
+            return (pty, "DNone" if ty == "none" else "(DRec %s)" % t)
+        if ty == "edialect" and pty == "optdialect":
+            return (pty, "(Some (d_pair %s))" % t)
+        if isinstance(pty, str) and self.OPT.get(pty) == ty:
+            return (pty, "(Some %s)" % t)
+        return (ty, t)
+
+    def bind_args(self, node, d, env, ptys=None, names=None, defaults=None):
+        """the arguments of a call by the callee's Python signature: positional, keyword, literal default"""
+        if d is not None:
+            a = d.f.args
+            names = [x.arg for x in a.args][(0 if d.recv is None else 1):]
+            defaults = dict(zip(names[len(names) - len(a.defaults):], a.defaults)) if a.defaults else {}
+            ptys = [pty for _, pty in d.params[len(d.params) - len(names):]] if names else []
+        if len(node.args) > len(names) or any(isinstance(x, ast.Starred) for x in node.args):
+            bad(node, "unsupported argument list")
+        given = dict(zip(names, node.args))
+        for k in node.keywords:
+            if k.arg is None or k.arg in given or k.arg not in names:
+                bad(node, "unsupported keyword argument")
+            given[k.arg] = k.value
+        out = []
+        for x, pty in zip(names, ptys):
+            if x not in given and x not in defaults:
+                bad(node, "missing argument %s" % x)
+            ty, t = self.ex(given[x] if x in given else defaults[x], env)
+            out.append(self.coerce(node, ty, t, pty))
+        return out
+
+    def generated_d(self, node, d, state, args, optional_ok=False):
+        """Fn.generated for an already found definition d (possibly of a unit this file does not import by name)"""
+        if FILES.index(d.file) > FILES.index(self.file):
+            bad(node, "%s lives in %s, which comes after %s" % (d.cname, d.file, self.file))
+        self.depfns.append(d)
+        self.assumes_inv |= d.assumes_inv
+        if len(args) != len(d.params):
+            bad(node, "unsupported argument list for %s" % d.cname)
+        for (ty, _), (_, pty) in zip(args, d.params):
+            unify(node, ty, pty, "argument of %s" % d.cname)
+        term = "(%s)" % " ".join([d.cname] + ([state] if state else []) + [t for _, t in args])
+        if (d.optional and not optional_ok) or d.mutating:
+            bad(node, "use of %s, which may return None or assigns the object state" % d.cname)
+        return ("out", d.kind, term) if d.outcome else (d.kind, term)
+
+    def generated(self, node, recv, name, state, args):
+        d = self.tr.get(recv, name, node)
+        if getattr(d, "no_state_text", False):
+            return self.generated_d(node, d, "", args)
+        if getattr(d, "dialect_param", False):           # the callee reads the receiver's _dialect: it is its first parameter
+            m = re.fullmatch(r"\(ever (.+)\) \(evalue \1\)", state or "")
+            if m:
+                args = [("edialect", "(edialect %s)" % m.group(1))] + list(args)
+            elif "self._dialect" in self.attrs and state == self.state({}):
+                args = [self.attrs["self._dialect"]] + list(args)
+            else:
+                bad(node, "call of %s, which reads the dialect, on a receiver whose dialect is not known" % d.cname)
+        return Fn.generated(self, node, recv, name, state, args)
+
+    def variant_for(self, specs_of, name, node, env):
+        """`name`, or its specialisation `name:<type of the first argument>` when the unit lists one"""
+        if node.args and not isinstance(node.args[0], ast.Starred):
+            snap, pre0 = self.snapshot(), list(self.pre)
+            ty = self.rhs(node.args[0], env)
+            ty = ty[1] if ty[0] == "out" else ty[0]
+            self.restore(snap)
+            self.pre = pre0
+            if isinstance(ty, str) and any(k[0] is None and k[1] == "%s:%s" % (name, ty) for t in specs_of for k in t.specs):
+                return "%s:%s" % (name, ty)
+        return name
+
+    def callfn(self, node, name, env):
+        name = self.variant_for([self.tr], name, node, env) if self.tr.owner_of(name) and self.tr.owner_of(name)[0] is self.tr else name
+        d = self.tr.get(None, name, node)
+        args = self.bind_args(node, d, env)
+        if d.optional and is_list(d.kind) and d.kind[1].find().t == "str" and not d.mutating:
+            r = self.generated_d(node, d, "", args, optional_ok=True)      # the groups of a match, or None
+            return ("out", "optgroups", r[2]) if r[0] == "out" else ("optgroups", r[1])
+        return self.generated(node, None, name, "", args)
+
+    def bool_(self, node, env):
+        snap, pre0 = self.snapshot(), list(self.pre)
+        self.opt_ok = None
+        ty, t = self.ex(node, env)
+        if ty == "matches":
+            return "(py_found %s)" % t                      # truth of a findall() result
+        if ty == "optgroups":
+            return "(py_optgroups_truthy %s)" % t           # truth of None / the groups of a match
+        if ty == "str" and self.tr.out in ("pysrc_ieee_gen.v", "pysrc_euic_gen.v"):
+            return "(py_bytes_truthy %s)" % t               # truth of a bytes object
+        self.restore(snap)
+        self.pre = pre0
+        return Fn.bool_(self, node, env)
+
+    def finish(self):
+        """Fn.finish, also for a function that returns from inside a loop and None at its end"""
+        rets = [l for l in self.leaves(self.ir) if l[0] == "ret" and l[1] != "@loop"]
+        if not rets and not self.lrets and any(l[0] == "raise" for l in self.leaves(self.ir)):
+            # every path raises: the result type is the one the unit entry's other specialisation has (an int for str_to_int)
+            self.kind = self.retkind = "int"
+            self.optional, self.outcome, self.type, self.fresh = False, True, "outcome Z", False
+            return
+        if self.lrets and any(l[1] == "none" for l in rets) and not self.mutating:
+            kinds = [l[1] for l in rets if l[1] != "none"] + self.lrets
+            for kd in kinds[1:]:
+                unify(self.f, kd, kinds[0], "return values")
+            self.kind = self.retkind = kinds[0]
+            self.optional, self.outcome = True, self.effects(self.ir)
+            base = "(option %s)" % coqty(self.kind, self.f)
+            self.type = "outcome " + base if self.outcome else unparen(base)
+            self.fresh = False
+            return
+        Fn.finish(self)
+
+    def render(self, ir, ind, oc, optional=False):
+        if ir[0] == "lmatch" and optional:                  # the loop returned r: the function's (optional) result is Some r
+            i2 = ind + "  "
+            sub = self.render(ir[4], i2, oc, optional) if ir[4][0] in ("ret", "raise", "jret", "lret") else "(" + self.render(ir[4], i2 + " ", oc, optional) + ")"
+            return "match %s with\n%s| inl %s => %s\n%s| inr %s =>\n%s%s\n%send" % (
+                ir[1], ind, ir[2], ("Ok (Some %s)" if oc else "(Some %s)") % ir[2], ind, ir[3], i2, sub, ind)
+        if ir[0] == "trybind":
+            i2 = ind + "  "
+            sub = lambda x: self.render(x, i2, True, optional) if x[0] in ("ret", "raise", "jret", "lret") else "(" + self.render(x, i2 + " ", True, optional) + ")"
+            hx = "x_" + ir[1]
+            return "match %s with\n%s| Ok %s =>\n%s%s\n%s| Raise %s =>\n%sif exn_eqb %s %s then\n%s  %s\n%selse\n%s  Raise %s\n%send" % (
+                ir[2], ind, ir[1], i2, sub(ir[3]), ind, hx, i2, hx, ir[4], i2, sub(ir[5]), i2, i2, hx, ind)
+        if ir[0] == "let" and ir[2] == "[]" and re.fullmatch(r"\w+", ir[1]):
+            body = self.render(ir[3], ind, oc, optional)
+            m = re.search(r"\b%s\b" % re.escape(ir[1]), body)
+            if m and re.search(r"(^|\s)(do|let) $", body[:m.start()]):
+                return body                 # an empty list that is rebound before it is ever read: dropped (its element type is unknown)
+        return Fn.render(self, ir, ind, oc, optional)
+
+    def block(self, stmts, env, k, after):
+        s = stmts[0] if stmts else None
+        if s is not None and getattr(self, "local_types", None):
+            r = self.block_opt(stmts, env, k, after)
+            if r is not None:
+                return r
+        if getattr(self, "fullstate", False) and isinstance(s, ast.Expr) and isinstance(s.value, ast.Call):
+            c = s.value
+            if (isinstance(c.func, ast.Attribute) and c.func.attr == "__init__" and isinstance(c.func.value, ast.Call)
+                    and dotted(c.func.value.func) == "super" and "super" not in env and not c.args and not c.keywords
+                    and [dotted(x) for x in c.func.value.args] == [self.owner, "self"] and self.pyname == "__init__"):
+                # super(C, self).__init__(): the body of the base class's __init__ (plain assignments of constants to attributes)
+                bases = [dotted(b) for b in self.mod.classes[self.owner].bases]
+                r = self.mod.lookup(bases[0], "__init__") if len(bases) == 1 else None
+                body = [st for st in (r[1].body if r else []) if not (isinstance(st, ast.Expr) and isinstance(st.value, ast.Constant))]
+                if not r or len(r[1].args.args) != 1 or any(not (isinstance(st, ast.Assign) and len(st.targets) == 1 and dotted(st.targets[0]) in self.STATE_KEYS
+                                                                  and isinstance(st.value, ast.Constant)) for st in body):
+                    bad(s, "super().__init__() of a base class whose __init__ is not a list of constant attribute assignments")
+                return self.block(body + list(stmts[1:]), env, k, after)
+        if getattr(self, "fullstate", False) and isinstance(s, ast.Try) and len(s.handlers) == 1:
+            hb = s.handlers[0].body
+            if len(hb) == 1 and isinstance(hb[0], ast.Pass):
+                return self.try_pass_state(s, list(stmts[1:]), env, k, after)
+            if (len(hb) == 1 and isinstance(hb[0], ast.Raise) and len(s.body) == 1 and isinstance(s.body[0], ast.Assign)
+                    and dotted(s.body[0].targets[0]) == "self._value" and isinstance(s.body[0].value, ast.Call)
+                    and not s.orelse and not s.finalbody and isinstance(s.handlers[0].type, ast.Name) and s.handlers[0].type.id in EXN):
+                # try: self._value = <call> / except E1: raise E2(..)
+                e2 = self.block(hb, {**env, "@break": None}, None, [])[1]
+                r = self.rhs(s.body[0].value, env)
+                if r[0] != "out" or r[1] != "int" or self.pre:
+                    bad(s, "try: self._value = <call> with a call that cannot raise or has arguments that can")
+                h, env2 = self.fresh(), dict(env)
+                env2["self._value"] = ("int", h)
+                return ("bind", h, "(py_except %s %s %s)" % (s.handlers[0].type.id, e2, r[2]), self.block(list(stmts[1:]), env2, k, after))
+        if (isinstance(s, ast.Try) and len(s.handlers) == 1 and dotted(s.handlers[0].type) == "TypeError" and "TypeError" not in env
+                and not self.mod.toplevel("TypeError") and not s.orelse and not s.finalbody and len(s.handlers[0].body) == 1
+                and isinstance(s.handlers[0].body[0], ast.Pass)
+                and all((isinstance(c.func, ast.Attribute) and c.func.attr == "findall" and isinstance(c.func.value, ast.Name)
+                         and env.get(c.func.value.id, ("",))[0] == "pat" and len(c.args) == 1 and isinstance(c.args[0], ast.Name)
+                         and env.get(c.args[0].id, ("",))[0] == "str") or self.builtin_call(c, "len", env, 1)
+                        for st in s.body for c in ast.walk(st) if isinstance(c, ast.Call))
+                and not any(isinstance(n, (ast.Raise, ast.BinOp, ast.Subscript, ast.Attribute)) and not (
+                    isinstance(n, ast.Attribute) and n.attr == "findall") for st in s.body for n in ast.walk(st))):
+            # try: <findall on text, len, comparisons, assignments, return> / except TypeError: pass -- nothing in the body can
+            # raise TypeError (the pattern is a compiled expression, the argument is text): the handler is dead code
+            return self.block(s.body + list(stmts[1:]), env, k, after)
+        return Fn.block(self, stmts, env, k, after)
+
+    def loop(self, s, rest, env, k, after):
+        if (isinstance(s, ast.For) and isinstance(s.iter, ast.Tuple) and s.iter.elts and isinstance(s.target, ast.Name) and not s.orelse
+                and all(isinstance(x, ast.Name) and self.module_of(x, env) for x in s.iter.elts) and getattr(self, "fullstate", False)):
+            # for module in (_eui48, _eui64): unrolled; `break` continues after the loop, the end of the body with the next module
+            mods, x = [self.module_of(m, env) for m in s.iter.elts], s.target.id
+            outer = (env["@break"], env["@continue"])
+
+            def leave(e):
+                e = {key: val for key, val in e.items() if key != x}
+                e["@break"], e["@continue"] = outer
+                return self.block(rest, e, k, after)
+
+            def iteration(i, e):
+                if i == len(mods):
+                    return leave(e)
+                ie = dict(e)
+                ie[x] = ("module", mods[i])
+                ie["@break"], ie["@continue"] = leave, (lambda e2: iteration(i + 1, e2))
+                return self.block(s.body, ie, lambda e2: iteration(i + 1, e2), [s] + rest + after)
+            return iteration(0, env)
+        return Fn.loop(self, s, rest, env, k, after)
+
+    def if_cond(self, s, c, rest, env, k, after):
+        """the tail of Fn.if_ for an already translated condition"""
+        pre = self.take_pre()
+        exits = (ast.Return, ast.Raise, ast.Break, ast.Continue, ast.Try)
+        if not any(isinstance(n, exits) for st in s.body + s.orelse for n in ast.walk(st)):
+            snap = self.snapshot()
+            try:
+                return self.wrap(pre, self.join(s, c, rest, env, k, after))
+            except NoJoin:
+                self.restore(snap)
+        return self.wrap(pre, ("if", c, self.block(s.body + rest, env, k, after), self.block(s.orelse + rest, env, k, after)))
+
+    def module_fn(self, m, name, node):
+        """the translated module-level function `name` of netaddr/strategy/<m>.py (any unit over that file)"""
+        for t in BY_FILE.get("netaddr/strategy/%s.py" % m, []):
+            if any(k[0] is None and k[1] == name for k in t.specs):
+                return t.get(None, name, node)
+        bad(node, "%s.%s is not translated" % (m, name))
+
+    def module_call(self, node, env):
+        """self._module.f(..) on an EUI receiver: the object's strategy module is one of the two modules the file imports as
+        _eui48 / _eui64, told apart by their regenerated `version` constants; any other _module is outside the class invariant"""
+        alts, kind = [], None
+        for m in ("eui48", "eui64"):
+            if self.mod.imports.get("_" + m) != "netaddr.strategy." + m or ("_%s.version" % m) not in self.attrs:
+                bad(node, "self._module.%s(..) in a file that does not import _eui48 / _eui64" % node.func.attr)
+            d = self.module_fn(m, node.func.attr, node)
+            npre = len(self.pre)
+            r = self.generated_d(node, d, "", self.bind_args(node, d, env))
+            if len(self.pre) != npre and alts:
+                bad(node, "argument of self._module.%s(..) that can raise" % node.func.attr)
+            k = r[1] if r[0] == "out" else r[0]
+            if kind is not None:
+                unify(node, k, kind, "results of the two strategy modules")
+            kind = k
+            alts.append((self.attrs["_%s.version" % m][1], r[2] if r[0] == "out" else "Ok %s" % r[1]))
+        ver = self.attrs["self._module.version"][1]
+        return ("out", kind, "(if (%s =? %s) then %s else if (%s =? %s) then %s else Raise Unsupported)" % (
+            ver, alts[0][0], alts[0][1], ver, alts[1][0], alts[1][1]))
+
+    def plain_import(self, alias, module):
+        """is `alias` bound only by the top-level `import <module> as <alias>`?"""
+        binds = [n for st in self.mod.tree.body for n in ([st] if isinstance(st, (ast.FunctionDef, ast.ClassDef)) else ast.walk(st))
+                 if (isinstance(n, (ast.FunctionDef, ast.ClassDef)) and n.name == alias)
+                 or (isinstance(n, ast.Name) and n.id == alias and isinstance(n.ctx, ast.Store))
+                 or (isinstance(n, ast.alias) and (n.asname or n.name) == alias)]
+        return (len(binds) == 1 and isinstance(binds[0], ast.alias) and binds[0].name == module
+                and any(isinstance(st, ast.Import) and binds[0] in st.names for st in self.mod.tree.body))
+
+    def struct_sizes(self, node):
+        fmt = node.args[0].value if node.args and isinstance(node.args[0], ast.Constant) else None
+        m = re.fullmatch(r">((?:\d*[BHI])+)", fmt) if isinstance(fmt, str) else None
+        if not m:
+            bad(node, "struct format other than a literal '>' followed by counted B / H / I fields")
+        return [SRCF_STRUCT_SIZES[c] for n, c in re.findall(r"(\d*)([BHI])", m.group(1)) for _ in range(int(n or "1"))]
+
+    def dialect_rec(self, node, name):
+        """the record constant of the dialect class that the module-level or imported name `name` stands for"""
+        imp = self.mod.imports.get(name)
+        if imp:
+            module, _, real = imp.rpartition(".")
+            fn = module.replace(".", "/") + ".py"
+            ts = [t for t in BY_FILE.get(fn, []) if FN_CLASS.get(t.out) is FnF]
+            if not ts or FILES.index(ts[0].out) >= FILES.index(self.file):
+                bad(node, "%s is imported from a module without an earlier SRCF unit" % name)
+            return srcf_dialect_rec_const(ts[0], real, node)
+        return srcf_dialect_rec_const(self.tr, name, node)
+
+    # ---- SRCF: methods that build / replace the whole state of an EUI object (__init__, _set_value, __setstate__) --------------
+    # A unit entry with the pseudo-parameter "self.*" is translated with the object's attributes tracked at translation time:
+    # env["self._module"] = ("none", None) | ("module", (version term, "eui48" | "eui64" | None)), env["self._value"] / ["self._dialect"]
+    # = ("none", None) | (type, term).  Every `if` on them duplicates the continuation, `for module in (_eui48, _eui64)` is unrolled,
+    # so each path knows what is assigned.  The function answers the final state: (version, value) for _set_value, the record
+    # {| ever; evalue; edialect |} for __init__ / __setstate__.  An exception leaves no object (or the old one) behind.
+    STATE_KEYS = ("self._module", "self._value", "self._dialect")
+
+    def init_fullstate(self, env):
+        self.fullstate = "self.*" in self.ptypes_declared
+        self.tryctx = None
+        if not self.fullstate:
+            return
+        for key in ("self._value", "self._module.version", "self._module.width", "self._module.max_int"):
+            self.attrs.pop(key, None)
+        how = self.name.partition(":")[2].split("_")[0]
+        if self.pyname == "_set_value":
+            if how == "implicit":
+                env["self._module"] = ("none", None)
+            elif how in ("eui48", "eui64") and self.mod.imports.get("_" + how) == "netaddr.strategy." + how:
+                env["self._module"] = ("module", ("src_%s_version" % how, how))
+            else:
+                bad(self.f, "_set_value variant %r" % how)
+            self.result = "pair"
+        else:
+            self.result = "eui"
+
+    def init_file_state(self, env):
+        """a parser method reading the binary file self.fh and reporting rows through self.notify(): the file is the two leading
+        parameters self_fh_lines (the lines readline() will return, terminators included) and self_fh_tell (what tell() answers);
+        `x = self.fh.readline()` = `x, self_fh_lines, self_fh_tell = <py_readline>`; `self.notify(r)` appends r to the list
+        self_notified, which the method returns when it ends normally (rows delivered before an exception are not represented)"""
+        import copy
+        f = copy.deepcopy(self.f)
+        loc = lambda n, at: ast.copy_location(n, at)
+        name = lambda x, ctx, at: loc(ast.Name(id=x, ctx=ctx), at)
+        fn = self
+
+        class T(ast.NodeTransformer):
+            def visit_Assign(self, st):
+                v = st.value
+                if isinstance(v, ast.Call) and dotted(v.func) == "self.fh.readline" and not v.args and not v.keywords and len(st.targets) == 1 \
+                        and isinstance(st.targets[0], ast.Name):
+                    call = loc(ast.Call(func=name("_srcf_readline", ast.Load(), st), args=[name("self_fh_lines", ast.Load(), st),
+                                                                                          name("self_fh_tell", ast.Load(), st)], keywords=[]), st)
+                    tgt = loc(ast.Tuple(elts=[st.targets[0], name("self_fh_lines", ast.Store(), st), name("self_fh_tell", ast.Store(), st)],
+                                        ctx=ast.Store()), st)
+                    return loc(ast.Assign(targets=[tgt], value=call), st)
+                return self.generic_visit(st)
+
+            def visit_Call(self, n):
+                n = self.generic_visit(n)
+                if dotted(n.func) == "self.fh.tell" and not n.args and not n.keywords:
+                    return name("self_fh_tell", ast.Load(), n)
+                return n
+
+            def visit_Expr(self, st):
+                v = st.value
+                if isinstance(v, ast.Call) and dotted(v.func) == "self.notify" and len(v.args) == 1 and not v.keywords:
+                    arg = self.visit(v.args[0])
+                    return loc(ast.Expr(value=loc(ast.Call(func=loc(ast.Attribute(value=name("self_notified", ast.Load(), st), attr="append",
+                                                                                  ctx=ast.Load()), st), args=[arg], keywords=[]), st)), st)
+                return self.generic_visit(st)
+        f = T().visit(f)
+        if any(isinstance(n, ast.Attribute) and (dotted(n) or "").startswith("self.fh") for n in ast.walk(f)) or any(
+                isinstance(n, ast.Return) for n in ast.walk(f)):
+            bad(self.f, "use of self.fh other than `x = self.fh.readline()` / self.fh.tell(), or a return statement")
+        first = f.body[1] if f.body and isinstance(f.body[0], ast.Expr) and isinstance(f.body[0].value, ast.Constant) else f.body[0]
+        init = loc(ast.Assign(targets=[name("self_notified", ast.Store(), first)], value=loc(ast.List(elts=[], ctx=ast.Load()), first)), first)
+        ret = loc(ast.Return(value=name("self_notified", ast.Load(), f.body[-1])), f.body[-1])
+        ret.lineno = ret.end_lineno = f.end_lineno
+        doc = 1 if f.body and isinstance(f.body[0], ast.Expr) and isinstance(f.body[0].value, ast.Constant) else 0
+        f.body = f.body[:doc] + [init] + f.body[doc:] + [ret]
+        self.f = ast.fix_missing_locations(f)
+        loops = sorted((n for n in ast.walk(self.f) if isinstance(n, (ast.For, ast.While))), key=lambda n: (n.lineno, n.col_offset))
+        self.loopno = {id(n): i + 1 for i, n in enumerate(loops)}
+        for x, ty in (("self_fh_lines", ("list", Cell("str"))), ("self_fh_tell", "int")):
+            cn = self.coqname(self.f, x)
+            env[x] = (ty, cn)
+            env["@taint"] |= {x}
+            self.params.append((cn, ty))
+
+    def init_dicts(self, env):
+        """a dict with constant string keys held in a local (`dict:<name>`: created by a dict literal in the method) or in an attribute
+        (`dict:self.<attr>`: its fields, with their declared types, are leading parameters and the method answers the new dict) is one
+        variable per key: d['k'] = the name d__k.  The dict itself may only be used as `self.<list>.append(d)` in the last statement
+        (the method answers d) -- or not at all for an attribute dict.  A for loop whose body rebinds its own loop variable gets a
+        fresh loop variable (`for x in l: x = f(x)` = `for x__it in l: x = x__it; x = f(x)`)."""
+        import copy
+        f = copy.deepcopy(self.f)
+        loc = lambda n, at: ast.copy_location(n, at)
+        dicts = {}
+        for key in self.ptypes_declared:
+            if key.startswith("dict:"):
+                path = key[5:]
+                fields = [x.partition(":") for x in self.spec_types[key].split(",")]
+                dicts[path] = (path.replace(".", "_"), [(k, t or None) for k, _, t in fields])
+        fn = self
+
+        class T(ast.NodeTransformer):
+            def visit_Subscript(self, n):
+                path = dotted(n.value)
+                if path in dicts and isinstance(n.slice, ast.Constant) and isinstance(n.slice.value, str):
+                    if n.slice.value not in [k for k, _ in dicts[path][1]]:
+                        bad(n, "key %r of %s is not declared" % (n.slice.value, path))
+                    return loc(ast.Name(id="%s__%s" % (dicts[path][0], n.slice.value), ctx=n.ctx), n)
+                return self.generic_visit(n)
+
+            def visit_Assign(self, st):
+                if (len(st.targets) == 1 and dotted(st.targets[0]) in dicts and "." not in dotted(st.targets[0]) and isinstance(st.value, ast.Dict)):
+                    base, fields = dicts[dotted(st.targets[0])]
+                    keys = [k.value if isinstance(k, ast.Constant) else None for k in st.value.keys]
+                    if keys != [k for k, _ in fields]:
+                        bad(st, "dict literal whose keys are not the declared ones, in order")
+                    return [loc(ast.Assign(targets=[loc(ast.Name(id="%s__%s" % (base, k), ctx=ast.Store()), st)], value=self.visit(v)), st)
+                            for k, v in zip(keys, st.value.values)]
+                return self.generic_visit(st)
+
+            def visit_For(self, st):
+                st = self.generic_visit(st)
+                if isinstance(st.target, ast.Name) and st.target.id in assigned_names(st.body):
+                    x = st.target.id
+                    st.body = [loc(ast.Assign(targets=[loc(ast.Name(id=x, ctx=ast.Store()), st)],
+                                              value=loc(ast.Name(id=x + "__it", ctx=ast.Load()), st)), st)] + st.body
+                    st.target = loc(ast.Name(id=x + "__it", ctx=ast.Store()), st)
+                return st
+        last = f.body[-1]
+        local = [p for p in dicts if "." not in p]
+        if (local and isinstance(last, ast.Expr) and isinstance(last.value, ast.Call) and isinstance(last.value.func, ast.Attribute)
+                and last.value.func.attr == "append" and (dotted(last.value.func.value) or "").startswith("self.") and len(last.value.args) == 1
+                and dotted(last.value.args[0]) in local and not last.value.keywords):
+            base, fields = dicts[dotted(last.value.args[0])]      # self.<list>.append(d) at the end: the method answers d
+            f.body[-1] = loc(ast.Return(value=loc(ast.Tuple(elts=[loc(ast.Name(id="%s__%s" % (base, k), ctx=ast.Load()), last) for k, _ in fields],
+                                                            ctx=ast.Load()), last)), last)
+        f = T().visit(f)
+        for path, (base, fields) in dicts.items():
+            if "." in path:                                  # an attribute dict: its fields are parameters, the new dict is the result
+                if any(isinstance(n, ast.Return) for n in ast.walk(f)):
+                    bad(self.f, "return in a method that updates the dict %s" % path)
+                f.body.append(loc(ast.Return(value=loc(ast.Tuple(elts=[loc(ast.Name(id="%s__%s" % (base, k), ctx=ast.Load()), last) for k, _ in fields],
+                                                                 ctx=ast.Load()), last)), last))
+                f.body[-1].lineno = f.body[-1].end_lineno = f.end_lineno
+                for k, t in fields:
+                    x = "%s__%s" % (base, k)
+                    ty = parse_type(t)
+                    cn = self.coqname(self.f, x)
+                    env[x] = (ty, cn)
+                    env["@taint"] |= {x}
+                    self.params.append((cn, ty))
+        if any(isinstance(n, (ast.Name, ast.Attribute)) and dotted(n) in dicts for n in ast.walk(f)):
+            bad(self.f, "use of a declared dict other than d['key'] / self.<list>.append(d) as the last statement")
+        self.f = ast.fix_missing_locations(f)
+        loops = sorted((n for n in ast.walk(self.f) if isinstance(n, (ast.For, ast.While))), key=lambda n: (n.lineno, n.col_offset))
+        self.loopno = {id(n): i + 1 for i, n in enumerate(loops)}
+
+    def compat_bytes_type(self):
+        """is _bytes_type bound in netaddr/compat.py only as `lambda x: bytes(x, 'UTF-8')` or as `str`?"""
+        fn = "netaddr/compat.py"
+        tree = ast.parse(open(os.path.join(REPO, fn), encoding="utf-8").read())
+        binds = [n for n in ast.walk(tree) if (isinstance(n, (ast.FunctionDef, ast.ClassDef)) and n.name == "_bytes_type")
+                 or (isinstance(n, ast.alias) and (n.asname or n.name) == "_bytes_type")
+                 or (isinstance(n, (ast.Assign, ast.AugAssign, ast.AnnAssign)) and any(
+                     isinstance(t, ast.Name) and t.id == "_bytes_type" and isinstance(t.ctx, ast.Store) for t in ast.walk(n)))]
+        ok = lambda b: isinstance(b, ast.Assign) and len(b.targets) == 1 and (dotted(b.value) == "str" or (
+            isinstance(b.value, ast.Lambda) and len(b.value.args.args) == 1 and isinstance(b.value.body, ast.Call)
+            and dotted(b.value.body.func) == "bytes" and len(b.value.body.args) == 2 and dotted(b.value.body.args[0]) == b.value.args.args[0].arg
+            and isinstance(b.value.body.args[1], ast.Constant) and b.value.body.args[1].value == "UTF-8"))
+        if not binds or not all(ok(b) for b in binds):
+            bad(binds[-1] if binds else None, "_bytes_type is not bound in compat.py the way the translator assumes", fn)
+        return True
+
+    def module_of(self, node, env):
+        """the module descriptor an expression denotes at translation time, else None"""
+        if isinstance(node, ast.Name) and node.id in env and env[node.id][0] == "module":
+            return env[node.id][1]
+        if (isinstance(node, ast.Name) and node.id not in env and node.id in ("_eui48", "_eui64")
+                and self.mod.imports.get(node.id) == "netaddr.strategy." + node.id[1:]):
+            return ("src_%s_version" % node.id[1:], node.id[1:])
+        if dotted(node) == "self._module" and self.fullstate and env.get("self._module", ("",))[0] == "module":
+            return env["self._module"][1]
+        if (isinstance(node, ast.Attribute) and node.attr == "_module" and isinstance(node.value, ast.Name)
+                and env.get(node.value.id, ("",))[0] == "eui"):
+            return ("(ever %s)" % env[node.value.id][1], None)
+        return None
+
+    def leaf(self, env, kind, term, wrapped=False):
+        if getattr(self, "fullstate", False) and kind == "none" and env["@break"] is None:
+            m, v, d = [env.get(key, ("none", None)) for key in self.STATE_KEYS]
+            if m[0] != "module" or v[0] != "int" or (self.result == "eui" and d[0] != "edialect"):
+                bad(self.f, "the object state is not completely assigned where the method ends")
+            if self.result == "pair":
+                return ("ret", ("tup", ("int", "int")), "(%s, %s)" % (m[1][0], v[1]), False)
+            return ("ret", "eui", "{| ever := %s; evalue := %s; edialect := %s |}" % (m[1][0], v[1], d[1]), False)
+        return Fn.leaf(self, env, kind, term, wrapped)
+
+    def text(self):
+        t = Fn.text(self)
+        if getattr(self, "fullstate", False) or getattr(self, "no_state_text", False):           # no receiver state: the method makes it / a classmethod
+            t = t.replace("Definition %s (%s : Z)" % (self.cname, " ".join(STATE[self.recv])), "Definition %s" % self.cname)
+        return t
+
+    def setter_variant(self, node, env, ty):
+        m = env.get("self._module", ("",))
+        how = "implicit" if m[0] == "none" else m[1][1] if m[0] == "module" and m[1][1] else None
+        if how is None or ty not in ("int", "str"):
+            bad(node, "self.value = <%s> with a module that is not known at translation time" % show(ty))
+        return "_set_value:%s_%s" % (how, ty)
+
+    def state_assign(self, s, tgt, value, env, go):
+        path = dotted(tgt)
+        env = dict(env)
+        if path == "self._module":
+            if isinstance(value, ast.Constant) and value.value is None:
+                env[path] = ("none", None)
+                return go(env)
+            m = self.module_of(value, env)
+            if m is None:
+                bad(s, "self._module = something that is not one of the two strategy modules")
+            env[path] = ("module", m)
+            return go(env)
+        if path == "self._value":
+            if isinstance(value, ast.Constant) and value.value is None:
+                env[path] = ("none", None)
+                return go(env)
+            t = self.int_(value, env)
+            pre = self.take_pre()
+            if not re.fullmatch(r"\w+|\(\w+ \w+\)", t):
+                cn = self.fresh()
+                env[path] = ("int", cn)
+                return self.wrap(pre, ("let", cn, t, go(env)))
+            env[path] = ("int", t)
+            return self.wrap(pre, go(env))
+        if path == "self.value":                         # the property setter: _set_value for the module known here
+            ty, t = self.ex(value, env)
+            name = self.setter_variant(s, env, ty)
+            d = self.tr.get("EUI", name, s)
+            r = self.generated_d(s, d, "", [(ty, t)])
+            pre, h = self.take_pre(), self.fresh()
+            old = env["self._module"]
+            env["self._module"] = ("module", ("(fst %s)" % h, None)) if old[0] == "none" else old
+            env["self._value"] = ("int", "(snd %s)" % h)
+            return self.wrap(pre, ("bind", h, r[2], go(env)))
+        if path == "self.dialect":                       # the property setter: _set_dialect = _validate_dialect
+            r = self.mod.lookup("EUI", "_set_dialect")
+            if not r or dotted(r[1].body[-1].value.func if isinstance(r[1].body[-1], ast.Assign) and isinstance(r[1].body[-1].value, ast.Call) else None) != "self._validate_dialect":
+                bad(s, "_set_dialect is not `self._dialect = self._validate_dialect(value)`")
+            m, v = env.get("self._module", ("",)), env.get("self._value", ("",))
+            if m[0] != "module" or v[0] != "int":
+                bad(s, "self.dialect = .. before the module and the value are assigned")
+            ty, t = self.ex(value, env)
+            ty, t = self.coerce(s, ty, t, "darg")
+            d = self.tr.get("EUI", "_set_dialect", s)
+            r = self.generated_d(s, d, "%s %s" % (m[1][0], v[1]), [(ty, t)])
+            pre, h = self.take_pre(), self.fresh()
+            env["self._dialect"] = ("edialect", h)
+            return self.wrap(pre, ("bind", h, r[2], go(env)))
+        bad(s, "assignment to %s" % path)
+
+    def wrap(self, pre, ir):
+        """Fn.wrap; inside `try: .. except E: pass` a hoisted call that raises E continues with the statements after the try"""
+        ctx = getattr(self, "tryctx", None)
+        for it in reversed(pre):
+            if it[0] == "guard":
+                ir = ("if", it[1], ctx[1]() if ctx and it[2] == ctx[0] else ("raise", it[2]), ir)
+            elif ctx:
+                ir = ("trybind", it[1], it[2], ir, ctx[0], ctx[1]())
+            else:
+                ir = ("bind", it[1], it[2], ir)
+        return ir
+
+    @staticmethod
+    def children(ir):
+        return [ir[3], ir[5]] if ir[0] == "trybind" else Fn.children(ir)
+
+    def effects(self, ir):
+        return ir[0] == "trybind" or Fn.effects(self, ir)
+
+    def outside_try(self, cont):
+        def run(e):
+            saved, self.tryctx = self.tryctx, None
+            try:
+                return cont(e)
+            finally:
+                self.tryctx = saved
+        return run
+
+    def try_pass_state(self, s, rest, env, k, after):
+        """try: body / except E: pass in a full-state method (CPS): a call of the body that raises E jumps to the statements after
+        the try, with the state as it was on entry (no call may follow a state assignment inside the body)"""
+        h = s.handlers[0]
+        seen_assign = False
+        for st in [n for b in s.body for n in ast.walk(b) if isinstance(n, ast.stmt)]:
+            if seen_assign and any(isinstance(n, ast.Call) for n in ast.walk(st)) and not isinstance(st, ast.If):
+                bad(st, "call after a state assignment inside try")
+            if isinstance(st, ast.Assign) and dotted(st.targets[0]) in self.STATE_KEYS:
+                seen_assign = True
+        if s.orelse or s.finalbody or h.name or not isinstance(h.type, ast.Name) or h.type.id not in EXN or h.type.id in env:
+            bad(s, "try statement other than `try: body / except E: pass`")
+        follow = self.outside_try(lambda e: self.block(rest, e, k, after))
+        benv = dict(env)
+        for key in ("@break", "@continue"):
+            if env[key] is not None:
+                benv[key] = self.outside_try(env[key])
+        saved, self.tryctx = self.tryctx, (h.type.id, lambda: follow(env))
+        try:
+            return self.block(s.body, benv, lambda e: follow({**e, "@break": env["@break"], "@continue": env["@continue"]}), rest + after)
+        finally:
+            self.tryctx = saved
+
+    def try_ex(self, node, env):
+        """self.ex for a speculative reading (the caller restores its snapshot): (None, None) where the expression is outside
+        the subset, so that the construct can still be tried by Fn"""
+        try:
+            return self.ex(node, env)
+        except Untranslatable:
+            return (None, None)
+
+    # ---- expressions
+    def rhs(self, node, env):
+        if isinstance(node, ast.Attribute) and node.attr in ("version", "max_int", "width") and self.module_of(node.value, env):
+            vterm, name = self.module_of(node.value, env)       # an attribute of a strategy module known at translation time
+            if node.attr == "version":
+                return ("int", vterm)
+            if name is None:
+                bad(node, "%s of a module that is only known by its version" % node.attr)
+            return ("int", "src_%s_%s" % (name, node.attr))
+        if isinstance(node, ast.Attribute):
+            path = dotted(node) or ""
+            head, _, tail = path.rpartition(".")
+            base = env.get(head) if head in env else self.attrs.get(head)
+            if base and base[0] == "edialect" and tail in ("word_size", "num_words", "word_sep", "word_fmt"):
+                return ("int" if tail in ("word_size", "num_words") else "str", "(d_%s %s)" % (tail, base[1]))
+        if (isinstance(node, ast.Name) and node.id not in env and isinstance(node.ctx, ast.Load) and self.recv is None
+                and node.id in SRCF_TABLES.get(self.tr.prefix, {}) and self.mod.toplevel(node.id)):
+            return (("list", Cell("pat")), SRCF_TABLES[self.tr.prefix][node.id])       # the list of compiled patterns: the matchers
+        if isinstance(node, ast.Tuple) and len(node.elts) == 1 and isinstance(node.ctx, ast.Load):
+            ty, t = self.ex(node.elts[0], env)
+            if ty == "str":
+                return (("list", Cell("str")), "[%s]" % t)
+            if is_list(ty) and ty[1].find().t == "str":     # (g,) where g is the groups of a one-group match: that group, as text
+                return (("list", Cell("str")), "[py_group_str %s]" % t)
+            bad(node, "1-tuple of %s" % show(ty))
+        if (isinstance(node, ast.Name) and node.id not in env and isinstance(node.ctx, ast.Load)
+                and re.fullmatch(r"netaddr\.strategy\.eui(48|64)\.\w+", self.mod.imports.get(node.id) or "")
+                and not node.id.startswith("_")):
+            return ("edialect", self.dialect_rec(node, node.id))       # a dialect class imported from a strategy module: its record
+        if (isinstance(node, ast.Compare) and len(node.ops) == 1 and isinstance(node.left, ast.Tuple)
+                and isinstance(node.comparators[0], ast.Tuple) and type(node.ops[0]) in CMP
+                and len(node.left.elts) == len(node.comparators[0].elts) > 0):
+            # comparison of two tuples of ints of the same length: equality componentwise, order lexicographic
+            xs = [self.int_(x, env) for x in node.left.elts]
+            ys = [self.int_(x, env) for x in node.comparators[0].elts]
+            op = type(node.ops[0])
+            if op in (ast.Eq, ast.NotEq):
+                t = "(%s)" % " && ".join("(%s =? %s)" % p for p in zip(xs, ys))
+                return ("bool", t if op is ast.Eq else "(negb %s)" % t)
+            strict = {ast.Lt: ast.Lt, ast.LtE: ast.Lt, ast.Gt: ast.Gt, ast.GtE: ast.Gt}[op]
+            t = CMP[op] % (xs[-1], ys[-1])
+            for x, y in reversed(list(zip(xs[:-1], ys[:-1]))):
+                t = "(%s || ((%s =? %s) && %s))" % (CMP[strict] % (x, y), x, y, t)
+            return ("bool", t)
+        if isinstance(node, ast.BinOp) and isinstance(node.op, ast.Add):
+            snap, pre0 = self.snapshot(), list(self.pre)
+            (ta, a), (tb, b) = self.try_ex(node.left, env), self.try_ex(node.right, env)
+            if ta == "str" and tb == "str":
+                return ("str", "(String.append %s %s)" % (a, b))      # concatenation of bytes / text
+            self.restore(snap)
+            self.pre = pre0
+        if isinstance(node, ast.Compare) and len(node.ops) == 1 and isinstance(node.ops[0], ast.In) and dotted(node.left) != "self":
+            snap, pre0 = self.snapshot(), list(self.pre)
+            (ta, a), (tb, b) = self.try_ex(node.left, env), self.try_ex(node.comparators[0], env)
+            if ta == "str" and tb == "str":
+                return ("bool", "(py_bytes_in %s %s)" % (a, b))        # needle in hay on bytes
+            self.restore(snap)
+            self.pre = pre0
+        if isinstance(node, ast.BinOp) and isinstance(node.op, ast.Mod):
+            snap, pre0 = self.snapshot(), list(self.pre)
+            ty, t = self.try_ex(node.left, env)
+            if ty == "str":                                 # text % int, text % tuple(<list of ints>)
+                r = node.right
+                if isinstance(r, ast.Tuple):              # text % (a, b, ..) with ints
+                    return ("out", "str", "(py_fmt_ints %s [%s])" % (t, "; ".join(self.int_(x, env) for x in r.elts)))
+                if self.builtin_call(r, "tuple", env, 1):
+                    lty, lt = self.ex(r, env)
+                    if not is_list(lty) or lty[1].find().t != "int":
+                        bad(node, "%% of text and a tuple of %s" % show(lty))
+                    return ("out", "str", "(py_fmt_ints %s %s)" % (t, lt))
+                return ("out", "str", "(py_fmt_int %s %s)" % (t, self.int_(r, env)))
+            self.restore(snap)
+            self.pre = pre0
+        return Fn.rhs(self, node, env)
+
+    def subscript(self, node, env):
+        sl = node.slice
+        v = node.value
+        if (const_int(sl) == 2 and isinstance(v, ast.Call) and isinstance(v.func, ast.Attribute) and v.func.attr == "split" and not v.keywords
+                and len(v.args) == 2 and isinstance(v.args[0], ast.Constant) and v.args[0].value is None and const_int(v.args[1]) == 2
+                and self.tr.out == "pysrc_euic_gen.v"):
+            snap, pre0 = self.snapshot(), list(self.pre)
+            ty, t = self.try_ex(v.func.value, env)
+            if ty == "str":
+                return ("out", "str", "(py_str_field3 %s)" % t)             # s.split(None, 2)[2]
+            self.restore(snap)
+            self.pre = pre0
+        if (const_int(sl) == 0 and isinstance(v, ast.Call) and isinstance(v.func, ast.Attribute) and v.func.attr == "split" and not v.keywords
+                and len(v.args) <= 1 and self.tr.out == "pysrc_ieee_gen.v"):
+            snap, pre0 = self.snapshot(), list(self.pre)
+            ty, t = self.ex(v.func.value, env)
+            if ty == "str" and not v.args:
+                return ("out", "str", "(py_bytes_split0 %s)" % t)          # b.split()[0]
+            if ty == "str":
+                sty, st = self.ex(v.args[0], env)
+                if sty == "str":
+                    return ("out", "str", "(py_bytes_split_sep0 %s %s)" % (st, t))      # b.split(sep)[0]
+            self.restore(snap)
+            self.pre = pre0
+        if isinstance(v, ast.Name) and env.get(v.id, ("",))[0] in self.OPTLIST and const_int(sl) is not None:
+            # x[k] on None-or-list: TypeError on None, IndexError outside the list
+            return ("out", self.OPTLIST[env[v.id][0]], "(match %s with Some h0 => py_getitem_o h0 %d | None => Raise TypeError end)" % (
+                env[v.id][1], const_int(sl)))
+        if True:
+            snap, pre0 = self.snapshot(), list(self.pre)
+            ty, t = self.ex(node.value, env)
+            if ty == "matches" and const_int(sl) == 0:      # findall(..)[0]: the groups of the first match (IndexError for [])
+                return ("out", ("list", Cell("str")), "(py_match0 %s)" % t)
+            if is_list(ty) and isinstance(sl, ast.Slice):
+                a, b = const_int(sl.lower) if sl.lower is not None else None, const_int(sl.upper) if sl.upper is not None else None
+                if a is not None and b is not None and 0 <= a <= b and sl.step is None:
+                    return (("list", ty[1]), "(py_slice_lit %d %d %s)" % (a, b, t))      # l[a:b], literals 0 <= a <= b
+            elif is_list(ty) and ty[1].find().t is not None:
+                return ("out", ty[1].find().t, "(py_getitem_o %s %s)" % (t, self.int_(sl, env)))     # l[i], computed index
+            self.restore(snap)
+            self.pre = pre0
+        return Fn.subscript(self, node, env)
+
+    def call(self, node, env):
+        f = node.func
+        if isinstance(f, ast.Attribute) and self.module_of(f.value, env) and self.module_of(f.value, env)[1]:
+            m = self.module_of(f.value, env)[1]
+            d = self.module_fn(m, self.variant_for(BY_FILE.get("netaddr/strategy/%s.py" % m, []), f.attr, node, env), node)   # <module known at translation time>.f(..)
+            return self.generated_d(node, d, "", self.bind_args(node, d, env))
+        if self.builtin_call(node, "int", env, 1):
+            snap, pre0 = self.snapshot(), list(self.pre)
+            ty, t = self.ex(node.args[0], env)
+            if ty == "str":
+                return ("out", "int", "(py_int_o 10 %s)" % t)      # int(text): ValueError
+            self.restore(snap)
+            self.pre = pre0
+        if (self.recv == "EUI" and isinstance(f, ast.Attribute) and dotted(f) == "self._module." + f.attr
+                and "self._module" not in env):
+            return self.module_call(node, env)
+        if (self.recv and self.recv not in STATEVARS and isinstance(f, ast.Attribute) and dotted(f) == "self." + f.attr
+                and f.attr != "__class__" and "self" not in env):
+            r = self.mod.lookup(self.recv, f.attr)          # self.m(args): arguments by m's signature and declared types
+            if not r or r[2]:
+                bad(node, "call of self.%s" % f.attr)
+            d = self.tr.get(self.recv, f.attr, node)
+            return self.generated(node, self.recv, f.attr, self.state(env), self.bind_args(node, d, env))
+        if dotted(f) in ("_struct.pack", "_struct.unpack") and "_struct" not in env and self.plain_import("_struct", "struct"):
+            if node.keywords or len(node.args) < 2:
+                bad(node, "struct call with an unsupported argument list")
+            sizes = "[%s]" % "; ".join("%d%%nat" % n for n in self.struct_sizes(node))
+            if f.attr == "pack" and len(node.args) == 2 and isinstance(node.args[1], ast.Starred):
+                ty, vals = self.ex(node.args[1].value, env)              # pack(fmt, *l)
+                unify(node, ty, ("list", Cell("int")), "values of struct.pack")
+            elif f.attr == "pack":
+                vals = "[%s]" % "; ".join(self.int_(x, env) for x in node.args[1:])
+            else:
+                if len(node.args) != 2:
+                    bad(node, "struct.unpack with an unsupported argument list")
+                ty, vals = self.ex(node.args[1], env)
+                unify(node, ty, ("list", Cell("int")), "buffer of struct.unpack")
+            return ("out", ("list", Cell("int")), "(py_struct_%s %s %s)" % (f.attr, sizes, vals))
+        if (self.builtin_call(node, "list", env, 1) and not (isinstance(node.args[0], ast.Call) and isinstance(node.args[0].func, ast.Attribute)
+                                                              and node.args[0].func.attr == "subnet")):
+            r = self.rhs(node.args[0], env)                 # list(<list / tuple>): a new list with the same elements
+            if is_list(r[1] if r[0] == "out" else r[0]):
+                return r
+            bad(node, "list() of %s" % show(r[1] if r[0] == "out" else r[0]))
+        if (self.builtin_call(node, "str", env, 1) and dotted(node.args[0]) == "self" and "self" not in env and self.recv
+                and self.mod.lookup(self.recv, "__str__")):
+            return self.generated(node, self.recv, "__str__", self.state(env), [])       # str(self) = self.__str__()
+        if (isinstance(f, ast.Attribute) and f.attr in ("split", "strip") and not node.keywords and self.tr.out == "pysrc_euic_gen.v"
+                and (f.attr == "strip" and not node.args or f.attr == "split" and len(node.args) == 1 and isinstance(node.args[0], ast.Constant)
+                     and node.args[0].value == "\n")):
+            snap, pre0 = self.snapshot(), list(self.pre)
+            ty, t = self.try_ex(f.value, env)
+            if ty == "str":
+                return ("str", "(py_str_strip %s)" % t) if f.attr == "strip" else (("list", Cell("str")), "(py_str_split_nl %s)" % t)
+            self.restore(snap)
+            self.pre = pre0
+        if isinstance(f, ast.Attribute) and f.attr == "replace" and len(node.args) == 2 and not node.keywords:
+            snap, pre0 = self.snapshot(), list(self.pre)
+            ty, t = self.ex(f.value, env)
+            if ty == "bi":                                  # x.replace(a, b) where x is bytes or an int: AttributeError for an int
+                h = self.fresh()
+                self.hoist(node, ("bind", h, "(bi_bytes %s)" % t))
+                (ta, a), (tb, b) = self.ex(node.args[0], env), self.ex(node.args[1], env)
+                if ta != "str" or tb != "str":
+                    bad(node, "replace() with arguments that are no bytes")
+                return ("str", "(replace %s %s %s)" % (a, b, h))
+            self.restore(snap)
+            self.pre = pre0
+        if (dotted(f) == "_bytes_type" and "_bytes_type" not in env and self.mod.imports.get("_bytes_type") == "netaddr.compat._bytes_type"
+                and len(node.args) == 1 and not node.keywords and isinstance(node.args[0], ast.Constant) and isinstance(node.args[0].value, str)
+                and self.compat_bytes_type()):
+            return self.rhs(node.args[0], env)              # _bytes_type('text'): the bytes of an ASCII literal
+        if dotted(f) == "_srcf_readline" and "self.fh" in self.ptypes_declared:
+            (_, a), (_, b) = self.ex(node.args[0], env), self.ex(node.args[1], env)
+            return (("tup", ("str", ("list", Cell("str")), "int")), "(py_readline %s %s)" % (a, b))
+        if self.builtin_call(node, "int", env, 2) and const_int(node.args[1]) == 16 and self.tr.out == "pysrc_ieee_gen.v":
+            ty, t = self.ex(node.args[0], env)
+            if ty != "str":
+                bad(node, "int(x, 16) of %s" % show(ty))
+            return ("out", "int", "(py_int16_bytes %s)" % t)       # int(b, 16) of a bytes object: Model/Ieee.v int16
+        if self.builtin_call(node, "int", env, 2) and const_int(node.args[1]) in (10, 16):
+            ty, t = self.ex(node.args[0], env)
+            if ty != "str":
+                bad(node, "int(x, base) of %s" % show(ty))
+            return ("out", "int", "(py_int_o %d %s)" % (const_int(node.args[1]), t))
+        if isinstance(f, ast.Attribute) and f.attr == "join" and len(node.args) == 1 and not node.keywords:
+            snap, pre0 = self.snapshot(), list(self.pre)
+            ty, t = self.ex(f.value, env)
+            if ty == "str":                                 # sep.join(<list of text>)
+                lty, lt = self.ex(node.args[0], env)
+                unify(node, lty, ("list", Cell("str")), "argument of join")
+                return ("str", "(join %s %s)" % (t, lt))
+            self.restore(snap)
+            self.pre = pre0
+        if (isinstance(f, ast.Attribute) and f.attr == "findall" and isinstance(f.value, ast.Name) and env.get(f.value.id, ("",))[0] == "pat"
+                and len(node.args) == 1 and not node.keywords):
+            ty, t = self.ex(node.args[0], env)              # <compiled pattern>.findall(text): Model/Eui.v match_pat
+            if ty == "int":                                 # findall of something that is no text: TypeError
+                return ("out", "matches", "(Raise TypeError)")
+            if ty != "str":
+                bad(node, "findall() of %s" % show(ty))
+            return ("matches", "(py_findall %s %s)" % (env[f.value.id][1], t))
+        if self.builtin_call(node, "len", env, 1):
+            snap, pre0 = self.snapshot(), list(self.pre)
+            ty, t = self.ex(node.args[0], env)
+            if ty == "matches":
+                return ("int", "(py_matches_len %s)" % t)
+            self.restore(snap)
+            self.pre = pre0
+        if (self.builtin_call(node, "hash", env, 1) and isinstance(node.args[0], ast.Tuple) and len(node.args[0].elts) == 2):
+            a, b = [self.int_(x, env) for x in node.args[0].elts]
+            return (("tup", ("int", "int")), "(py_hash_pair (%s, %s))" % (a, b))
+        return Fn.call(self, node, env)
+
+    def listcomp(self, node, env):
+        """[e for x in xs] -> map (fun x => e) xs, or py_map_o (fun x => <the calls of e that can raise, in order>; Ok e) xs"""
+        g = node.generators
+        if len(g) == 1 and not g[0].ifs and not g[0].is_async and isinstance(g[0].target, ast.Name) and g[0].target.id not in env:
+            ty, t = self.ex(g[0].iter, env)
+            elem = ty[1].find().t if is_list(ty) else None
+            if elem is None:
+                bad(node, "comprehension over %s" % show(ty))
+            cn, lenv = self.bind_local(g[0].target, g[0].target.id, elem, env, g[0].iter)
+            saved, self.pre = self.pre, []
+            ety, et = self.ex(node.elt, lenv)
+            inner, self.pre = self.pre, saved
+            if not is_value(ety):
+                bad(node, "comprehension element of kind %s" % show(ety))
+            if not inner:
+                return (("list", Cell(ety)), "(map (fun %s => %s) %s)" % (cn, et, t))
+            body = "".join("(if %s then Raise %s else " % (it[1], it[2]) if it[0] == "guard" else "do %s <- %s; " % (it[1], it[2]) for it in inner)
+            body += "Ok %s" % et + ")" * sum(it[0] == "guard" for it in inner)
+            return ("out", ("list", Cell(ety)), "(py_map_o (fun %s => %s) %s)" % (cn, body, t))
+        return Fn.listcomp(self, node, env)
+
+    # ---- statements
+    def assign(self, s, env, go):
+        tgt = s.targets[0] if isinstance(s, ast.Assign) and len(s.targets) == 1 else None
+        if isinstance(tgt, ast.Name) and getattr(self, "local_types", {}).get(tgt.id) in self.OPTLIST:
+            # a local declared `optintlist` / `optbilist`: None or a list of ints / of bytes-or-int values
+            oty = self.local_types[tgt.id]
+            if isinstance(s.value, ast.Constant) and s.value.value is None:
+                cn, env = self.bind_local(tgt, tgt.id, oty, env, s.value)
+                return ("let", cn, "None", go(env))
+            if oty == "optbilist" and isinstance(s.value, ast.List):
+                t = "[%s]" % "; ".join(self.as_bi(x, env) for x in s.value.elts)
+            else:
+                ty, t = self.ex(s.value, env)
+                unify(s, ty, ("list", Cell(self.OPTLIST[oty])), "value of %s" % tgt.id)
+            pre = self.take_pre()
+            cn, env = self.bind_local(tgt, tgt.id, oty, env, s.value)
+            return self.wrap(pre, ("let", cn, "(Some %s)" % t, go(env)))
+        if (isinstance(tgt, ast.Subscript) and isinstance(tgt.value, ast.Name) and env.get(tgt.value.id, ("",))[0] == "optbilist"
+                and const_int(tgt.slice) is not None):
+            # x[k] = e on None-or-list: TypeError on None
+            x, old = tgt.value.id, env[tgt.value.id][1]
+            e = self.as_bi(s.value, env)
+            pre, l, l2 = self.take_pre(), self.fresh(), self.fresh()
+            cn, env = self.bind_local(s, x, "optbilist", env, s.value)
+            return self.wrap(pre, ("omatch", old, [("Some", [l], ("bind", l2, "(py_setitem_o %s %d %s)" % (l, const_int(tgt.slice), e),
+                                                                   ("let", cn, "(Some %s)" % l2, go(env)))),
+                                                  ("None", [], ("raise", "TypeError"))]))
+        if getattr(self, "fullstate", False) and tgt is not None and dotted(tgt) in self.STATE_KEYS + ("self.value", "self.dialect"):
+            return self.state_assign(s, tgt, s.value, env, go)
+        if (isinstance(tgt, ast.Subscript) and isinstance(tgt.value, ast.Name) and is_list(env.get(tgt.value.id, ("",))[0])
+                and not isinstance(tgt.slice, ast.Slice)):
+            l = tgt.value.id                                             # l[i] = e on a list (no second name: no aliasing)
+            lty, lt = env[l]
+            idx = self.int_(tgt.slice, env)
+            ty, t = self.ex(s.value, env)
+            unify(s, ("list", Cell(ty)), lty, "assigned element")
+            pre = self.take_pre()
+            cn, env = self.bind_local(s, l, lty, env)
+            return self.wrap(pre, ("bind", cn, "(py_setitem_o %s %s %s)" % (lt, idx, t), go(env)))
+        if (tgt is not None and dotted(tgt) == "self._value" and "self._value" in self.attrs and isinstance(s.value, ast.Call)):
+            if env["@mut"] or env["@break"] is not None:                 # self._value = <call that can raise>
+                bad(s, "state assignment inside a loop / second state assignment")
+            t = self.int_(s.value, env)
+            pre, env = self.take_pre(), dict(env)
+            env["@mut"], env["self._value"] = ("self._value", t), ("int", t)
+            return self.wrap(pre, go(env))
+        return Fn.assign(self, s, env, go)
+
+    def if_(self, s, rest, env, k, after):
+        t, neg = s.test, False
+        if isinstance(t, ast.UnaryOp) and isinstance(t.op, ast.Not):
+            t, neg = t.operand, True
+        isnone = (isinstance(t, ast.Compare) and len(t.ops) == 1 and isinstance(t.ops[0], (ast.Is, ast.IsNot))
+                  and isinstance(t.comparators[0], ast.Constant) and t.comparators[0].value is None)
+        if isnone and getattr(self, "fullstate", False) and dotted(t.left) == "self._module" and "self._module" in env:
+            # self._module is [not] None: known at translation time
+            yes = ((env["self._module"][0] == "none") == isinstance(t.ops[0], ast.Is)) != neg
+            return self.block((s.body if yes else s.orelse) + rest, env, k, after)
+        conj = t.values if isinstance(t, ast.BoolOp) and isinstance(t.op, ast.And) and not neg else [t]
+        c0 = conj[0]
+        if (isinstance(c0, ast.Compare) and len(c0.ops) == 1 and isinstance(c0.ops[0], (ast.Is, ast.IsNot)) and isinstance(c0.left, ast.Name)
+                and isinstance(c0.comparators[0], ast.Constant) and c0.comparators[0].value is None
+                and env.get(c0.left.id, ("",))[0] == "optint" and (len(conj) == 1 or isinstance(c0.ops[0], ast.IsNot))):
+            # `if x is [not] None [and <more>]` on None-or-int: in the Some arm x is the int
+            x, cn = c0.left.id, self.coqname(s, c0.left.id + "_v")
+            senv = dict(env)
+            senv[x] = ("int", cn)
+            some_yes = isinstance(c0.ops[0], ast.IsNot) != (neg and len(conj) == 1)
+            if len(conj) > 1:
+                more = conj[1] if len(conj) == 2 else ast.copy_location(ast.BoolOp(op=ast.And(), values=conj[1:]), t)
+                inner = ast.copy_location(ast.If(test=more, body=s.body, orelse=s.orelse), s)
+                some_ir = self.block([inner] + rest, senv, k, after)
+            else:
+                some_ir = self.block((s.body if some_yes else s.orelse) + rest, senv, k, after)
+            none_yes = not some_yes if len(conj) == 1 else False
+            nenv = dict(env)
+            nenv[x] = ("none", None)
+            return ("omatch", env[x][1], [("Some", [cn], some_ir), ("None", [], self.block((s.body if none_yes else s.orelse) + rest, nenv, k, after))])
+        if (not neg and isinstance(t, ast.Compare) and len(t.ops) == 1 and isinstance(t.ops[0], ast.Is) and isinstance(t.left, ast.Name)
+                and isinstance(t.comparators[0], ast.Constant) and t.comparators[0].value is None
+                and env.get(t.left.id, ("",))[0] in self.OPT):
+            # `if x is None: x = <default>`: from here on x is a value
+            x, a = t.left.id, s.body[0] if len(s.body) == 1 else None
+            if not (s.orelse == [] and isinstance(a, ast.Assign) and len(a.targets) == 1 and isinstance(a.targets[0], ast.Name)
+                    and a.targets[0].id == x):
+                bad(s, "`if %s is None:` followed by something other than `%s = <default>`" % (x, x))
+            oty, old = env[x]
+            if oty == "optedialect":
+                if not isinstance(a.value, ast.Name) or a.value.id in env:
+                    bad(s, "default dialect that is not a module-level name")
+                dflt = self.dialect_rec(a, a.value.id)
+            else:
+                self.nohoist += 1
+                dflt = self.ex(a.value, env)
+                self.nohoist -= 1
+                if dflt[0] != self.OPT[oty]:
+                    bad(s, "default of type %s for %s" % (show(dflt[0]), x))
+                dflt = dflt[1]
+            cn, env = self.bind_local(a.targets[0], x, self.OPT[oty], env, t)
+            return ("let", cn, "(match %s with Some h0 => h0 | None => %s end)" % (old, dflt), self.block(rest, env, k, after))
+        if (not neg and isinstance(t, ast.Compare) and len(t.ops) == 1 and isinstance(t.ops[0], ast.Is) and isinstance(t.left, ast.Name)
+                and isinstance(t.comparators[0], ast.Constant) and t.comparators[0].value is None
+                and env.get(t.left.id, ("",))[0] == "darg"):
+            # `if x is None` on a `darg`: the three kinds of Model/Eui.v darg; in the DRec arm x is the record, in the DBad arm x is
+            # an object for which `hasattr(x, 'word_size') and hasattr(x, 'word_fmt')` is false and nothing else is known
+            x, arms = t.left.id, []
+            cn = self.coqname(s, x + "_rec")
+            for kind, names, ty in (("DNone", [], ("none", None)), ("DRec", [cn], ("edialect", cn)), ("DBad", [], ("dbad", None))):
+                aenv = dict(env)
+                aenv[x] = ty
+                arms.append((kind, names, self.block((s.body if kind == "DNone" else s.orelse) + rest, aenv, k, after)))
+            return ("omatch", env[x][1], arms)
+        if (isinstance(t, ast.BoolOp) and isinstance(t.op, ast.And) and len(t.values) == 2 and "hasattr" not in env
+                and not self.mod.toplevel("hasattr") and all(
+                    isinstance(c, ast.Call) and dotted(c.func) == "hasattr" and len(c.args) == 2 and not c.keywords
+                    and isinstance(c.args[0], ast.Name) and isinstance(c.args[1], ast.Constant) for c in t.values)
+                and len({c.args[0].id for c in t.values}) == 1 and {c.args[1].value for c in t.values} == {"word_size", "word_fmt"}
+                and env.get(t.values[0].args[0].id, ("",))[0] in ("edialect", "dbad")):
+            yes = (env[t.values[0].args[0].id][0] == "edialect") != neg
+            return self.block((s.body if yes else s.orelse) + rest, env, k, after)
+        if isinstance(t, ast.Name) and env.get(t.id, ("",))[0] == "optgroups":
+            # `if x:` / `if not x:` on None-or-groups: in the true branch x is the groups (a tuple of text, or the one group's text)
+            x, cn = t.id, self.coqname(s, t.id + "_g")
+            tenv = dict(env)
+            tenv[x] = (("list", Cell("str")), cn)
+            yes, no = (s.orelse, s.body) if neg else (s.body, s.orelse)
+            a_ir = self.block(yes + rest, tenv, k, after)
+            return ("omatch", env[x][1], [("Some", [cn], ("if", "(py_optgroups_truthy (Some %s))" % cn, a_ir, self.block(no + rest, env, k, after))),
+                                          ("None", [], self.block(no + rest, env, k, after))])
+        if (isinstance(t, ast.Call) and dotted(t.func) == "_is_int" and "_is_int" not in env
+                and self.mod.imports.get("_is_int") == "netaddr.compat._is_int" and compat_lambda_isinstance("_is_int")):
+            if len(t.args) != 1 or t.keywords or not isinstance(t.args[0], ast.Name) or env.get(t.args[0].id, ("",))[0] not in ("str", "int", "eui"):
+                bad(s, "_is_int test on something whose type does not decide it")
+            yes = (env[t.args[0].id][0] == "int") != neg
+            return self.block((s.body if yes else s.orelse) + rest, env, k, after)
+        return Fn.if_(self, s, rest, env, k, after)
+
+    OPTLIST = {"optintlist": "int", "optbilist": "bi"}
+
+    def as_bi(self, node, env):
+        """an int or bytes expression as a bytes-or-int value"""
+        ty, t = self.ex(node, env)
+        if ty not in ("int", "str", "bi"):
+            bad(node, "%s where bytes or an int is expected" % show(ty))
+        return t if ty == "bi" else "(%s %s)" % ("BiI" if ty == "int" else "BiB", t)
+
+    def expr_stmt(self, s, env, go):
+        v = s.value
+        if (isinstance(v, ast.Call) and isinstance(v.func, ast.Attribute) and v.func.attr == "append" and isinstance(v.func.value, ast.Name)
+                and is_list(env.get(v.func.value.id, ("",))[0]) and env[v.func.value.id][0][1].find().t == "bi" and len(v.args) == 1
+                and not v.keywords):
+            l = v.func.value.id                              # l.append(e) on a list of bytes-or-int values
+            lty, lt = env[l]
+            t = self.as_bi(v.args[0], env)
+            pre = self.take_pre()
+            cn, env = self.bind_local(s, l, lty, env)
+            return self.wrap(pre, ("let", cn, "(%s ++ [%s])" % (lt, t), go(env)))
+        return Fn.expr_stmt(self, s, env, go)
+
+    def opt_narrow(self, s, x, env, some_stmts, none_ir):
+        """match x with Some l => <some_stmts with x : list> | None => none_ir"""
+        cn = self.coqname(s, x + "_l")
+        senv = dict(env)
+        senv[x] = (("list", Cell(self.OPTLIST[env[x][0]])), cn)
+        return ("omatch", env[x][1], [("Some", [cn], some_stmts(senv)), ("None", [], none_ir)])
+
+    def block_opt(self, stmts, env, k, after):
+        """statements on a local declared optintlist: `x.append(e)` (AttributeError on None; afterwards x is a list) and
+        `if x is not None:` (x is a list in the body)"""
+        s = stmts[0]
+        rest = list(stmts[1:])
+        if (isinstance(s, ast.Expr) and isinstance(s.value, ast.Call) and isinstance(s.value.func, ast.Attribute) and s.value.func.attr == "append"
+                and isinstance(s.value.func.value, ast.Name) and env.get(s.value.func.value.id, ("",))[0] in self.OPTLIST):
+            x = s.value.func.value.id
+            return self.opt_narrow(s, x, env, lambda e: self.block([s] + rest, e, k, after), ("raise", "AttributeError"))
+        if isinstance(s, ast.If):
+            t = s.test
+            if (isinstance(t, ast.Compare) and len(t.ops) == 1 and isinstance(t.ops[0], (ast.Is, ast.IsNot)) and isinstance(t.left, ast.Name)
+                    and isinstance(t.comparators[0], ast.Constant) and t.comparators[0].value is None
+                    and env.get(t.left.id, ("",))[0] in self.OPTLIST):
+                some, none = (s.body, s.orelse) if isinstance(t.ops[0], ast.IsNot) else (s.orelse, s.body)
+                return self.opt_narrow(s, t.left.id, env, lambda e: self.block(some + rest, e, k, after), self.block(none + rest, env, k, after))
+        return None
+
+    ISINST = {("int", "slice"): False, ("int", "EUI"): False, ("str", "EUI"): False, ("str", "slice"): False,
+              ("eui", "EUI"): True, ("eui", "slice"): False}
+
+    def isinstance_(self, s, t, neg, rest, env, k, after):
+        if (len(t.args) == 2 and not t.keywords and isinstance(t.args[0], ast.Name) and isinstance(t.args[1], ast.Name)
+                and (env.get(t.args[0].id, ("",))[0], t.args[1].id) in self.ISINST and t.args[1].id not in env
+                and (t.args[1].id in self.mod.classes or not self.mod.toplevel(t.args[1].id))):
+            # isinstance(x, C) decided by the declared type of x (C: a class of this module, or the builtin `slice`)
+            yes = self.ISINST[(env[t.args[0].id][0], t.args[1].id)] != neg
+            return self.block((s.body if yes else s.orelse) + rest, env, k, after)
+        if (len(t.args) == 2 and not t.keywords and isinstance(t.args[1], ast.Name) and t.args[1].id == "tuple" and "tuple" not in env
+                and not self.mod.toplevel("tuple")):
+            snap, pre0 = self.snapshot(), list(self.pre)
+            ty, g = self.ex(t.args[0], env)
+            if is_list(ty) and ty[1].find().t == "str":
+                # isinstance(g, tuple) for the groups of a match: a tuple unless the pattern has exactly one group
+                c = "(py_is_tuple %s)" % g
+                return self.if_cond(s, "(negb %s)" % c if neg else c, rest, env, k, after)
+            self.restore(snap)
+            self.pre = pre0
+        return Fn.isinstance_(self, s, t, neg, rest, env, k, after)
+
+
+def srcf_class_attr(t, cls, attr, node, depth=0):
+    """the constant bound to `attr` in the body of class `cls` of t's module or, failing that, of its bases (in order)"""
+    c = t.mod.classes.get(cls)
+    if c is None or depth > 8:
+        bad(node, "class %s is not defined in %s" % (cls, t.fn), t.fn)
+    binds = [st for st in c.body for n in ast.walk(st) if isinstance(n, ast.Name) and n.id == attr and isinstance(n.ctx, ast.Store)]
+    if binds:
+        if len(binds) != 1 or not isinstance(binds[0], ast.Assign) or len(binds[0].targets) != 1:
+            bad(binds[-1], "%s.%s is not bound by one plain assignment" % (cls, attr), t.fn)
+        return binds[0].value
+    for b in c.bases:
+        if dotted(b) != "object":
+            return srcf_class_attr(t, dotted(b), attr, node, depth + 1)
+    bad(node, "class %s has no attribute %s" % (cls, attr), t.fn)
+
+
+def srcf_dialect_rec_const(t, name, node):
+    """the Gallina constant for the dialect class that the module-level name `name` of t's file stands for (the class itself,
+    or a name bound once to it): the record of its word_size, num_words (int constant expressions, evaluated per class body),
+    word_sep, word_fmt (string literals), looked up through the bases"""
+    cn = t.mangle(None, name) + "_rec"
+    if cn not in t.consts:
+        cls, line = name, None
+        if name not in t.mod.classes:
+            ds = [a for a in t.mod.tree.body for n in ast.walk(a) if isinstance(n, ast.Name) and n.id == name and isinstance(n.ctx, ast.Store)]
+            if (len(ds) != 1 or not isinstance(ds[0], ast.Assign) or len(ds[0].targets) != 1 or not isinstance(ds[0].value, ast.Name)
+                    or ds[0].value.id not in t.mod.classes or t.mod.imports.get(name)):
+                bad(node, "%s is not a class of %s nor bound once, at top level, to one" % (name, t.fn), t.fn)
+            cls, line = ds[0].value.id, ds[0].lineno
+        elif sum(1 for st in t.mod.tree.body for n in ([st] if isinstance(st, (ast.FunctionDef, ast.ClassDef)) else ast.walk(st))
+                 if (isinstance(n, (ast.FunctionDef, ast.ClassDef)) and n.name == name)
+                 or (isinstance(n, ast.Name) and n.id == name and isinstance(n.ctx, ast.Store))) != 1:
+            bad(node, "%s is bound more than once" % name, t.fn)
+        CURFILE.append(t.fn)
+        try:
+            ints = t.class_ints(cls)
+            strs = []
+            for a in ("word_sep", "word_fmt"):
+                v = srcf_class_attr(t, cls, a, node)
+                if not (isinstance(v, ast.Constant) and isinstance(v.value, str) and all(32 <= ord(c) < 127 for c in v.value)):
+                    bad(v, "%s.%s is not a printable string literal" % (cls, a))
+                strs.append('"%s"%%string' % v.value.replace('"', '""'))
+        finally:
+            CURFILE.pop()
+        if "word_size" not in ints or "num_words" not in ints:
+            bad(node, "class %s has no constant word_size / num_words" % cls, t.fn)
+        t.consts[cn] = ("(* %s: %s%s, line %d: the record (word_size, num_words, word_sep, word_fmt) of that class *)\n"
+                        "Definition %s : dialect_t := mk_dialect %d %d %s %s.\n"
+                        % (t.fn, name, " = " + cls if cls != name else "", line or t.mod.classes[cls].lineno, cn,
+                           ints["word_size"], ints["num_words"], strs[0], strs[1]))
+    return cn
+
+
+def srcf_module_hook(mod):
+    """a @classmethod whose first parameter `cls` is only read as `cls.<class-level constant>`: translated as a plain method of a
+    receiver without state, with cls = the class itself (a subclass overriding the constant is out of scope)"""
+    for c in mod.classes.values():
+        for f in c.body:
+            if (isinstance(f, ast.FunctionDef) and [dotted(d) for d in f.decorator_list] == ["classmethod"] and f.args.args
+                    and f.args.args[0].arg == "cls" and (c.name, f.name) in SRCF_CLASSMETHODS):
+                uses = [n for n in ast.walk(f) if isinstance(n, ast.Name) and n.id == "cls"]
+                attr_bases = {id(n.value) for n in ast.walk(f) if isinstance(n, ast.Attribute) and isinstance(n.ctx, ast.Load)}
+                if all(isinstance(n.ctx, ast.Load) and id(n) in attr_bases for n in uses):
+                    f.decorator_list = []
+                    f.args.args[0].arg = "self"
+                    for n in uses:
+                        n.id = c.name
+
+
+SRCF_CLASSMETHODS = {("IAB", "split_iab_mac")}
+for _u in SRCF_UNITS:
+    FN_CLASS[_u[1]] = FnF
+MODULE_HOOK["pysrc_euib_gen.v"] = srcf_module_hook
 
 
 BY_MODULE = {}      # dotted module name -> the first translator made for its file (filled by generate())
@@ -2851,9 +4183,11 @@ class Translator:
         self.done, self.order, self.failed, self.active, self.consts = {}, [], {}, [], {}
         BY_MODULE.setdefault(re.sub(r"(/__init__)?\.py$", "", fn).replace("/", "."), self)
         BY_OUT[out] = self
+        BY_FILE.setdefault(fn, []).append(self)            # (SRCF) every translator of a file, in unit order
         CURFILE.append(fn)
         try:
             self.mod = Module(fn)
+            MODULE_HOOK.get(out, lambda m: None)(self.mod)      # (SRCF) a unit may normalise the parsed module (see srcf_module_hook)
         finally:
             CURFILE.pop()
 
@@ -2957,7 +4291,14 @@ class Translator:
             if t is not None and t is not self and any(k[0] is None and k[1] == real for k in t.specs) and not t.mod.imports.get(real):
                 return t, real
             return None
-        return self.owner_of_samefile(name)
+        return self.owner_of_samefile(name) or self.owner_of_sibling(name)
+
+    def owner_of_sibling(self, name):
+        """(SRCF) (translator, name) of an earlier unit over the same file that lists the module-level function `name`"""
+        for t in BY_FILE.get(self.fn, []):
+            if t is not self and any(k[0] is None and k[1] == name for k in t.specs) and not t.mod.imports.get(name):
+                return t, name
+        return None
 
     def modof(self, cls):
         """the parsed module that defines class `cls` as seen from this file (this one, or netaddr/ip/__init__.py for an import)"""
@@ -2977,6 +4318,10 @@ class Translator:
                 if o in BY_OUT and BY_OUT[o].fn == self.fn and any(w[:2] == key for w in BY_OUT[o].specs):
                     return BY_OUT[o].get(recv, name, node)
             return self.parent.get(recv, name, node)        # a second unit over the same file: everything else is the first one's
+        if recv is not None and not any(w[:2] == key for w in self.specs):      # (SRCF) a method listed by another unit over the same file
+            for t in BY_FILE.get(self.fn, []):
+                if t is not self and any(w[:2] == key for w in t.specs):
+                    return t.get(recv, name, node)
         if key in self.failed:
             bad(node, "depends on untranslatable %s" % self.mangle(*key))
         if key in self.active:
@@ -3063,6 +4408,7 @@ def failures(tr, failed, mine):
 
 def generate():
     BY_MODULE.clear()
+    BY_FILE.clear()
     tr = Translator().run()
     units = [Translator(fn, out, prefix, specs, tr).run() for fn, out, prefix, _, specs in UNITS]
     names = [x for t in [tr] + units for k in t.order for x in [t.mangle(*k)] + [L.name for L in t.done[k].loops]]
